@@ -85,7 +85,7 @@ fn main() {
         check_symmetry_laws::<B>(&objs[(i / (no * no)) as usize], &objs[((i / no) % no) as usize], &objs[(i % no) as usize], loc)
     }));
     let meta = Meta {
-        rule: "all composable triples (associativity), all diagrams (unit laws), all pairs of composable pairs (interchange), all pairs of diagrams (naturality of the symmetry), all triples of object lists (self-inverse, hexagons, unit coherence); both sides of each law are computed through the public API and compared by the isomorphism decision procedure".into(),
+        rule: "all composable triples (associativity), all diagrams (unit laws), all pairs of composable pairs (interchange), all pairs of diagrams (naturality of the symmetry), all triples of object lists (self-inverse, hexagons, unit coherence); both sides of each law are computed through the public API and compared by the isomorphism decision procedure; associativity across identity / reversal of a long boundary on the structured gluing pairs of C01".into(),
         bounds: "assoc: <=2 nodes, <=1 edge of arity <=1 per operand (thorough: 2 edge labels, interfaces <=2; and <=3 nodes); identity: <=3 nodes <=2 edges; interchange: <=1-2 nodes, <=1 edge; naturality: <=2 nodes, <=1 edge, arity <=2; object lists of length <=2 (quick) / <=3 (thorough) over 2 labels".into(),
         assumptions: vec!["small-scope bound".into(), "Vec backend".into(), "isomorphism oracle self-tested against brute force".into()],
         explanation: "explicit enumeration; every law instance is decided by iso() on the decoded results of the real compose/tensor/identity/twist".into(),
